@@ -13,21 +13,34 @@ package main
 // bytes may share a segment with it). Every write / half-close / close / reset of a peer and every
 // segment delivery is a driver event.
 //
+// "Middleware in front of the websocket handler must not disturb the tunnel": per run the proxy options
+// that put something between the http server and the handler are drawn (proxy.gzip.contenttype with
+// Accept-Encoding / Accept variants on the upgrade request -> gzip.GzipResponseWriter around the
+// ResponseWriter; access logging; a TLS listener, where the hijacked connection is a *tls.Conn, with
+// STS response headers set before the handler runs). The raw clients of a TLS run reach fabio through a
+// transparent TLS-originating relay (c09wsRelays). The oracle is the same in every configuration.
+//
 // Oracle (from the property text): what the upstream receives after the forwarded request head is
 // the client's stream, what the client receives after the 101 head is the upstream's stream - exactly
 // once, in order, unmodified; complete in the close orders in which the statement demands it.
 
 import (
 	"bytes"
+	"crypto/tls"
 	"fmt"
+	"io"
 	"net"
+	"regexp"
 	"strings"
+	"sync"
 	"testing/synctest"
 	"time"
 
 	"github.com/fabiolb/fabio/config"
 	"github.com/fabiolb/fabio/internal/zzverif/simcore"
+	"github.com/fabiolb/fabio/internal/zzverif/simnet"
 	"github.com/fabiolb/fabio/internal/zzverif/simpeer"
+	"github.com/fabiolb/fabio/logger"
 )
 
 func init() {
@@ -40,6 +53,9 @@ type c09wsTunnel struct {
 	Token   string        `json:"upgrade_token"`
 	Up      string        `json:"upstream"`
 	Early   bool          `json:"client_sends_without_waiting_for_101"`
+	AccEnc  string        `json:"accept_encoding,omitempty"`
+	Accept  string        `json:"accept,omitempty"`
+	More    []string      `json:"more_request_headers,omitempty"`
 	ReqLen  int           `json:"request_head_len"`
 	RespLen int           `json:"response_head_len"`
 	CLen    int           `json:"client_bytes"`
@@ -55,20 +71,41 @@ type c09wsTunnel struct {
 	UActs   []simpeer.Act `json:"upstream_script"`
 
 	req, resp, c, u []byte
+	gzipped, overTLS bool // the gzip wrapper stands in front of the websocket handler / the listener speaks TLS
 	cl, up          *simpeer.Peer
 }
 
 type c09wsScenario struct {
 	// EOFWithData: the connections' Read returns the last bytes of a stream together with io.EOF when the
 	// FIN has arrived before those bytes were read (legal for an io.Reader; crypto/tls does it)
-	EOFWithData bool           `json:"read_returns_last_bytes_with_eof,omitempty"`
-	Tunnels     []*c09wsTunnel `json:"tunnels"`
+	EOFWithData bool `json:"read_returns_last_bytes_with_eof,omitempty"`
+	// proxy options that put something between the http server and the websocket handler (a wrapper
+	// around the ResponseWriter, response headers set before the handler runs, the access logger)
+	Gzip       string         `json:"proxy_gzip_contenttype,omitempty"`
+	AccessLog  string         `json:"access_log_format,omitempty"`
+	TLS        bool           `json:"tls_listener,omitempty"`
+	BigRecords bool           `json:"tls_client_fills_records,omitempty"`
+	STSMaxAge  int            `json:"sts_max_age,omitempty"`
+	STSSub     bool           `json:"sts_subdomains,omitempty"`
+	STSPreload bool           `json:"sts_preload,omitempty"`
+	Tunnels    []*c09wsTunnel `json:"tunnels"`
 	Table       string         `json:"table"`
 }
 
 // "halfclose" is the client half-closing first, "upstream-halfclose" its mirror (see c09Gen in proxy/tcp).
 var c09wsOrders = []string{"client-first", "upstream-first", "simultaneous", "halfclose", "client-abrupt", "upstream-abrupt", "upstream-halfclose"}
 var c09wsMark = []byte("\r\n\r\n")
+
+// the listener's options: value 0 is the plain proxy
+var c09wsGzip = []string{"", "^(text/.*|application/(javascript|json|font-woff|xml)|.*\\+(json|xml))(;.*)?$", ".*"}
+var c09wsLogs = []string{"", "common", "combined", "$remote_host $request $response_status $response_body_size $upstream_addr"}
+var c09wsAccEnc = []string{"", "gzip", "gzip, deflate, br", "deflate", "identity;q=1, *;q=0", "br;q=1.0, gzip;q=0.8, *;q=0.1"}
+var c09wsAccept = []string{"", "*/*", "text/html,application/xhtml+xml;q=0.9,*/*;q=0.8", "text/event-stream"}
+var c09wsMore = []string{"Sec-WebSocket-Protocol: chat, superchat", "Sec-WebSocket-Extensions: permessage-deflate; client_max_window_bits", "User-Agent: sim/1.0", "Cookie: session=0123456789abcdef", "Cache-Control: no-cache"}
+
+// c09wsFront is where the clients of a run with a TLS listener connect: a TLS-originating relay of the
+// harness (the clients are raw byte-stream peers) that passes every byte, end of stream and reset on.
+const c09wsFront = "tlsfront.sim:443"
 
 func c09wsSize(g *simcore.Tape, max int) int {
 	switch g.Intn(6) {
@@ -96,6 +133,15 @@ func c09wsGen(g *simcore.Tape, thorough bool) *c09wsScenario {
 	if thorough {
 		max = 200 << 10
 	}
+	sc.Gzip = simcore.Pick(g, c09wsGzip)
+	sc.AccessLog = simcore.Pick(g, c09wsLogs)
+	if sc.TLS = g.Chance(30); sc.TLS {
+		sc.BigRecords = g.Bool()
+		if g.Chance(70) {
+			sc.STSMaxAge = simcore.Pick(g, []int{31536000, 1, 600})
+			sc.STSSub, sc.STSPreload = g.Bool(), g.Bool()
+		}
+	}
 	nt := g.Range(1, 3)
 	var table strings.Builder
 	act := func(k string, n int) simpeer.Act { return simpeer.Act{Kind: k, N: n} }
@@ -104,6 +150,13 @@ func c09wsGen(g *simcore.Tape, thorough bool) *c09wsScenario {
 		fmt.Fprintf(&table, "route add ws%d %s http://%s/\n", j, t.Path, t.Up)
 		t.Token = simcore.Pick(g, []string{"websocket", "Websocket"})
 		t.Early = g.Bool()
+		t.AccEnc = simcore.Pick(g, c09wsAccEnc)
+		t.Accept = simcore.Pick(g, c09wsAccept)
+		for _, h := range c09wsMore {
+			if g.Chance(25) {
+				t.More = append(t.More, h)
+			}
+		}
 		t.Order = simcore.Pick(g, c09wsOrders)
 		t.CLen = c09wsSize(g, max)
 		t.ULen = c09wsSize(g, max)
@@ -125,8 +178,18 @@ func c09wsGen(g *simcore.Tape, thorough bool) *c09wsScenario {
 		if g.Chance(20) {
 			t.UStalls = g.Range(1, 2)
 		}
+		more := ""
+		if t.AccEnc != "" {
+			more += "Accept-Encoding: " + t.AccEnc + "\r\n"
+		}
+		if t.Accept != "" {
+			more += "Accept: " + t.Accept + "\r\n"
+		}
+		for _, h := range t.More {
+			more += h + "\r\n"
+		}
 		t.req = []byte("GET " + t.Path + "/chat?room=1 HTTP/1.1\r\nHost: fabio.sim\r\nUpgrade: " + t.Token + "\r\nConnection: Upgrade\r\n" +
-			"Sec-WebSocket-Key: dGhlIHNhbXBsZSBub25jZQ==\r\nSec-WebSocket-Version: 13\r\nOrigin: http://fabio.sim\r\n\r\n")
+			"Sec-WebSocket-Key: dGhlIHNhbXBsZSBub25jZQ==\r\nSec-WebSocket-Version: 13\r\nOrigin: http://fabio.sim\r\n" + more + "\r\n")
 		t.resp = []byte("HTTP/1.1 101 Switching Protocols\r\nUpgrade: websocket\r\nConnection: Upgrade\r\nSec-WebSocket-Accept: s3pPLMBiTxaQ9kYGzzhZRbK+xOo=\r\n\r\n")
 		t.ReqLen, t.RespLen = len(t.req), len(t.resp)
 		t.c = simpeer.Stream(g, t.CLen, 0xC0000000|uint32(j)<<20)
@@ -206,6 +269,8 @@ func c09wsGen(g *simcore.Tape, thorough bool) *c09wsScenario {
 			ua = insert(ua, 1, len(uw))
 		}
 		t.CActs, t.UActs = ca, ua
+		t.gzipped = sc.Gzip != "" && strings.Contains(t.AccEnc, "gzip") && !strings.Contains(t.Accept, "text/event-stream")
+		t.overTLS = sc.TLS
 		sc.Tunnels = append(sc.Tunnels, t)
 	}
 	sc.Table = table.String()
@@ -233,7 +298,27 @@ func runC09ws(r *simcore.Run) {
 	cfg.Proxy.NoRouteStatus = 404
 	cfg.GlobCacheSize = 100
 	cfg.Proxy.DialTimeout = 30 * time.Second
+	if sc.Gzip != "" {
+		cfg.Proxy.GZIPContentTypes = regexp.MustCompile(sc.Gzip)
+	}
+	cfg.Proxy.STSHeader = config.STSHeader{MaxAge: sc.STSMaxAge, Subdomains: sc.STSSub, Preload: sc.STSPreload}
 	e := h2NewEnv(r, cfg, sc.Table)
+	if sc.AccessLog != "" {
+		// what main.newHTTPProxy does for log.access.target=stdout, with a writer of the harness
+		format := sc.AccessLog
+		switch format {
+		case "common":
+			format = logger.CommonFormat
+		case "combined":
+			format = logger.CombinedFormat
+		}
+		lg, err := logger.New(&c09wsLogWriter{}, format)
+		if err != nil {
+			r.Trouble("access log format %q: %v", sc.AccessLog, err)
+			return
+		}
+		e.proxy.Logger = lg
+	}
 	e.net.EOFWithData = sc.EOFWithData
 	peers := simpeer.NewGroup(r, e.net)
 	defer func() {
@@ -241,7 +326,19 @@ func runC09ws(r *simcore.Run) {
 		e.finish()
 	}()
 	e.d.AddSource(peers.Events)
-	e.serve(nil)
+	dialKey := h2FabioAddr
+	var front *c09wsRelays
+	if sc.TLS {
+		e.serve(&tls.Config{Certificates: []tls.Certificate{zzSelfSigned()}})
+		var err error
+		if front, err = c09wsStartFront(e, sc.BigRecords); err != nil {
+			r.Trouble("listen %s: %v", c09wsFront, err)
+			return
+		}
+		dialKey = c09wsFront
+	} else {
+		e.serve(nil)
+	}
 	for j, t := range sc.Tunnels {
 		up, err := peers.Upstream(fmt.Sprintf("u%d", j), t.Up, append(append([]byte(nil), t.resp...), t.u...), t.UActs)
 		if err != nil {
@@ -251,7 +348,7 @@ func runC09ws(r *simcore.Run) {
 		up.HeadMark = c09wsMark
 		t.up = up
 		a, _ := net.ResolveTCPAddr("tcp", t.Client)
-		t.cl = peers.Client(fmt.Sprintf("c%d", j), a, h2FabioAddr, append(append([]byte(nil), t.req...), t.c...), t.CActs)
+		t.cl = peers.Client(fmt.Sprintf("c%d", j), a, dialKey, append(append([]byte(nil), t.req...), t.c...), t.CActs)
 		t.cl.HeadMark = c09wsMark
 		t.cl.SetStalls(t.CStalls)
 		t.up.SetStalls(t.UStalls)
@@ -276,13 +373,132 @@ func runC09ws(r *simcore.Run) {
 	for _, t := range sc.Tunnels {
 		c09wsCheck(r, t)
 		// reads of fabio's two connection ends that returned the tail of a stream together with io.EOF
-		if c := t.cl.Conn(); c != nil && c.Peer() != nil {
+		if c := t.cl.Conn(); c != nil && front != nil {
+			c = front.toFabio(t.Client)
+			if c != nil && c.Peer() != nil {
+				r.ProbeN("ws_fabio_read_data_with_eof_c2u", c.Peer().EOFWithDataReads())
+			}
+		} else if c != nil && c.Peer() != nil {
 			r.ProbeN("ws_fabio_read_data_with_eof_c2u", c.Peer().EOFWithDataReads())
 		}
 		if c := t.up.Conn(); c != nil && c.Peer() != nil {
 			r.ProbeN("ws_fabio_read_data_with_eof_u2c", c.Peer().EOFWithDataReads())
 		}
 	}
+}
+
+// c09wsLogWriter takes the access log lines (their content belongs to C20).
+type c09wsLogWriter struct {
+	mu sync.Mutex
+	n  int
+}
+
+func (w *c09wsLogWriter) Write(b []byte) (int, error) {
+	w.mu.Lock()
+	w.n += len(b)
+	w.mu.Unlock()
+	return len(b), nil
+}
+
+// c09wsRelays is the TLS front of a run whose listener speaks TLS: for every client connection it
+// accepts (plain, from a raw peer) it opens a connection to fabio from the same source address, does
+// the TLS handshake as a crypto/tls client and then copies both directions: what one read from the
+// client returns goes out in one Write of the TLS connection (so the driver's segmentation of the
+// client's stream decides which bytes share a TLS record with the end of the upgrade request), the
+// end of the client's stream becomes close_notify (tls.Conn.CloseWrite), fabio's close_notify becomes
+// the end of the stream towards the client, a reset on one side a reset on the other. A reader that
+// stops reading on one side blocks the writer on the other.
+type c09wsRelays struct {
+	mu  sync.Mutex
+	raw map[string]*simnet.Conn // client address -> the relay's connection to fabio
+}
+
+func (f *c09wsRelays) toFabio(client string) *simnet.Conn {
+	f.mu.Lock()
+	defer f.mu.Unlock()
+	return f.raw[client]
+}
+
+func c09wsStartFront(e *h2Env, bigRecords bool) (*c09wsRelays, error) {
+	ln, err := e.net.Listen(c09wsFront, simnet.ListenOpts{})
+	if err != nil {
+		return nil, err
+	}
+	f := &c09wsRelays{raw: map[string]*simnet.Conn{}}
+	go func() {
+		for {
+			c, err := ln.Accept()
+			if err != nil {
+				return
+			}
+			go f.relay(e, c.(*simnet.Conn), bigRecords)
+		}
+	}()
+	return f, nil
+}
+
+func (f *c09wsRelays) relay(e *h2Env, pc *simnet.Conn, bigRecords bool) {
+	from, _ := pc.RemoteAddr().(*net.TCPAddr)
+	rc, err := e.net.Dial(e.r.Ctx(), from, h2FabioAddr, 0)
+	if err != nil {
+		pc.Close()
+		return
+	}
+	raw := rc.(*simnet.Conn)
+	f.mu.Lock()
+	f.raw[from.String()] = raw
+	f.mu.Unlock()
+	tc := tls.Client(raw, &tls.Config{InsecureSkipVerify: true, ServerName: "fabio.sim", NextProtos: []string{"http/1.1"}, DynamicRecordSizingDisabled: bigRecords})
+	if err := tc.Handshake(); err != nil {
+		raw.Close()
+		pc.Close()
+		return
+	}
+	done := make(chan struct{}, 2)
+	go func() { // client -> fabio
+		defer func() { done <- struct{}{} }()
+		buf := make([]byte, 16<<10)
+		for {
+			n, err := pc.Read(buf)
+			if n > 0 {
+				if _, werr := tc.Write(buf[:n]); werr != nil {
+					pc.Close() // fabio's end is gone: the client's writes fail from now on
+					return
+				}
+			}
+			if err == io.EOF {
+				tc.CloseWrite()
+				return
+			}
+			if err != nil {
+				raw.Reset()
+				return
+			}
+		}
+	}()
+	go func() { // fabio -> client
+		defer func() { done <- struct{}{} }()
+		buf := make([]byte, 16<<10)
+		for {
+			n, err := tc.Read(buf)
+			if n > 0 {
+				if _, werr := pc.Write(buf[:n]); werr != nil {
+					raw.Close()
+					return
+				}
+			}
+			if err != nil {
+				// close_notify, or the connection ended without one: either way the stream towards the
+				// client is over and what the relay has passed on stays on its way
+				pc.CloseWrite()
+				return
+			}
+		}
+	}()
+	<-done
+	<-done
+	tc.Close()
+	pc.Close()
 }
 
 // c09wsSplit cuts a received stream at the end of its HTTP head.
@@ -383,6 +599,18 @@ func c09wsCheck(r *simcore.Run, t *c09wsTunnel) {
 		}
 		if t.Early && t.CLen > 0 {
 			r.Probe("client_stream_sent_before_101")
+			if t.gzipped {
+				r.Probe("ws_client_stream_sent_before_101_behind_gzip")
+			}
+			if t.overTLS {
+				r.Probe("ws_client_stream_sent_before_101_over_tls")
+			}
+		}
+		if t.gzipped {
+			r.Probe("ws_behind_gzip")
+		}
+		if t.overTLS {
+			r.Probe("ws_over_tls_order_" + t.Order)
 		}
 		if len(t.c) > 64<<10 || len(t.u) > 64<<10 {
 			r.Probe("stream_above_window")
